@@ -112,5 +112,49 @@ P = histprop.HistProp(
           "call's path, its destination, an ancestor or a descendant in the caller's namespace, never the placeholder, and "
           "invalid-path errors name the rejected argument"),
     assumptions=["custom filesystems whose exists() fails are outside the built-in stackings the theorem C12_exists_total covers"])
-generate, corpus, run_and_compare, known = P.generate, P.corpus, P.run_and_compare, P.known
-RULE, ASSUMPTIONS, BUILDS = P.RULE, P.ASSUMPTIONS, P.BUILDS
+generate, corpus, known = P.generate, P.corpus, P.known
+ASSUMPTIONS, BUILDS = P.ASSUMPTIONS, P.BUILDS
+RULE = P.RULE + ("; the ASYNC port: the directed cases on the configurations available there run through the async API "
+                 "(tokio current-thread runtime) and every failing call's kind and path is compared with the async model")
+
+
+def async_errors(cases):
+    """the async port classifies and names errors like the sync API: the directed cases through the async harness against
+    the async model, kind and path of every failing call (and of every error item of a walk)"""
+    from props import c15
+    sub = [c for c in cases if (c.name.startswith("c12_mx_") or c.name.startswith("c12_join_")) and c.cfg.kind in c15.CONFIGS]
+    if not sub:
+        return [], 0
+    _sync, asy, _pend, amodel = c15.run_variants(sub, "c12a", seed=12)
+    by = {c.name: c for c in sub}
+    out, seen, n = [], set(), 0
+    for k in sorted(set(asy) | set(amodel), key=lambda k: (k[1], k[2], k[0])):
+        kind, cname, step = k
+        if kind != "r" or cname in seen:
+            continue
+        a, m = asy.get(k), amodel.get(k)
+        ea, em = ERR.findall(a or ""), ERR.findall(m or "")
+        if not ea and not em:
+            continue
+        n += 1
+        c = by[cname]
+        op = c.ops[step] if step < c.nops else ""
+        if op.split(" ")[0] in ("snap", "tree", "probe"):
+            continue
+        if op.split(" ")[0] in ("setctime", "setmtime", "setatime") and not getattr(c, "has_phys", False) and \
+                [e[0] for e in ea] == ["NotSupported"]:
+            continue      # the async MemoryFS implements no time setter (C15's finding D23a); not-supported is the right class
+        if ea != em:
+            seen.add(cname)
+            out.append({"case": cname, "case_text": c.text(), "step": step, "op": op, "kind": "r", "model": m, "impl": a,
+                        "violates": True,
+                        "note": "async port: errors %s, async model: %s at `%s`" % (ea[:3], em[:3], op[:60])})
+    return out, n
+
+
+def run_and_compare(cases, tier):
+    res = P.run_and_compare(cases, tier)
+    dis, n = async_errors(cases)
+    res["disagreements"] = res["disagreements"] + dis
+    res["stats"].setdefault("distribution", {})["async_error_lines_compared"] = n
+    return res
